@@ -140,7 +140,9 @@ def run_one(params: dict, chooser, deviations=True) -> dict:
     msgs = params['msgs']                # list of message keys
     coalesce = params['coalesce']
     ERRORS.records.clear()
-    world = World(chooser=chooser, horizon=40.0, deviations=False)
+    # slowcpu: the loop is late, a due time-out fires in the iteration in which the reader task already processes
+    # the reply (reader first) — the other order of 'same iteration' than hold + unhold-before gives
+    world = World(chooser=chooser, horizon=40.0, deviations=False, slowcpu=True)
     world.obs_msgs = []
     violations: list[Violation] = []
     try:
@@ -292,12 +294,16 @@ def _check_waiter(world, slot):
             'spurious-completion', f"waiter {name} completed with {got!r} although no matching message "
             f"arrived while it was pending", signature=f'C12:spurious-completion:{kind}')
     if got_exc != end_kind:
-        if cancel_at is not None and abs(cancel_at - deadline) <= 1e-9 and got_exc in ('TimeoutError', 'CancelledError'):
+        late = any(str(t).startswith('slowcpu') for t in world.trace)
+        if slot.get('cancel_at') is not None and (late or (cancel_at is not None and abs(cancel_at - deadline) <= 1e-9)) \
+                and got_exc in ('TimeoutError', 'CancelledError'):
+            # the cancellation and the time-out fell into the same iteration (same instant, or a late loop)
             return None
         return Violation(
             'timeout-type', f"waiter {name} with no matching reply ended with {got_exc} "
             f"({slot.get('exc_obj')!r}) instead of {end_kind}", signature=f'C12:timeout-type:{kind}:{got_exc}')
-    if end_kind == 'TimeoutError' and abs(slot['t_ret'] - deadline) > 1e-6:
+    late_loop = any(str(t).startswith('slowcpu') for t in world.trace)     # a late loop delays time-outs legitimately
+    if end_kind == 'TimeoutError' and abs(slot['t_ret'] - deadline) > 1e-6 and not late_loop:
         return Violation(
             'timeout-time', f"waiter {name} timed out at {slot['t_ret']} instead of {deadline}",
             signature=f'C12:timeout-time:{kind}')
